@@ -394,7 +394,7 @@ fn random_script(rng: &mut Rng, max_ops: usize, big: bool) -> Script {
             ops.push(Op::Unstall { c });
         }
     }
-    Script { cap, ops }
+    Script { cap, write_timeout_ms: None, ops }
 }
 
 fn wire_tok(rng: &mut Rng) -> String {
@@ -514,7 +514,7 @@ impl Prop for C04 {
             if !seq.is_empty() {
                 let mut ops = vec![Op::Reg { id: 0, v1: false }, Op::Reg { id: 1, v1: false }];
                 ops.extend(seq.iter().map(|i| alpha[*i].clone()));
-                out.push(Script { cap: 1, ops }.render());
+                out.push(Script { cap: 1, write_timeout_ms: None, ops }.render());
             }
             if seq.len() < depth {
                 for i in 0..alpha.len() {
